@@ -74,7 +74,10 @@ class _Gen:
 
 
 def _coprimes(mod):
-    return [k for k in range(1, mod) if math.gcd(k, mod) == 1] or [1]
+    """invertible constants; those that are not their own inverse first (k and k^-1 must be told apart)"""
+    cps = [k for k in range(1, mod) if math.gcd(k, mod) == 1] or [1]
+    strong = [k for k in cps if (k * k) % mod != 1]
+    return strong or cps
 
 
 def make_configs(tier, seed):
@@ -125,7 +128,7 @@ def make_configs(tier, seed):
                 kk = k + mod * rng.choice([0, 0, 1])
                 g.add("Multiplier", [n, n if mod == 2 ** n else n + 2], 2, k=kk, mod=mod)
     # ---- OutMultiplier: work-wire counts select the applicable rules
-    om = [(1, 1, 1), (1, 2, 2), (2, 1, 2), (2, 2, 2), (2, 2, 3), (2, 1, 3)] + ([(2, 2, 4), (3, 2, 3), (2, 3, 4), (3, 3, 3)] if thorough else [(2, 2, 4)])
+    om = [(1, 1, 1), (1, 2, 2), (2, 1, 2), (2, 2, 2), (2, 2, 3), (2, 1, 3)] + ([(2, 2, 4), (3, 2, 3), (2, 3, 4), (3, 3, 3)] if thorough else [])
     for nx, ny, no in om:
         for zeroed in (0, 1):
             works = {0, no + 1, 2 * no - 1 if not zeroed else min(max(no - 1, 0), ny + 1)}
@@ -294,7 +297,12 @@ def paths_of(c, only=None):
             dflt = op.decomposition() if op.has_decomposition else None
     except Exception:            # noqa: BLE001 - the device path will show the error
         dflt = None
-    if dflt is not None:
+    has_mat = bool(getattr(op, "has_matrix", False))
+    if dflt is not None and not has_mat:
+        seen.append(list(dflt))
+    if dflt is not None and has_mat:
+        # default.qubit applies an operator with a matrix directly: run its decomposition() explicitly
+        out.append(["decomposition()", pre + list(dflt) + post, None])
         seen.append(list(dflt))
     try:
         rules = list(qp.list_decomps(op))
@@ -319,7 +327,9 @@ def paths_of(c, only=None):
             continue
         dup = next((j for j, other in enumerate(seen) if _same_ops(ops, other)), None)
         if dup is not None:
-            if dup == 0 and dflt is not None and out[0][0] == "device":
+            if dup == 0 and dflt is not None and has_mat:
+                out[1][0] = f"decomposition()={r.name}"
+            elif dup == 0 and dflt is not None and out[0][0] == "device":
                 out[0][0] = f"device={r.name}"          # the device default is this rule
             continue             # same expansion as the device default / an earlier rule: already covered
         seen.append(ops)
@@ -596,7 +606,7 @@ def run(tier, seed):
     for i, want in negs:
         if verd[i] == "ok":
             raise lib.MachineryError(f"negative control accepted ({want}) for trace {i}")
-        nneg += verd[i] == want
+        nneg += want in verd[i].split("+")
     if len(negs) < 4 or nneg < len(negs) - 2:
         raise lib.MachineryError(f"negative controls: {nneg}/{len(negs)} rejected with the intended clause")
     # ---- verdicts -> violations (one per stable key)
